@@ -5,7 +5,7 @@ import math
 from common import Str, sx
 
 ID = 'C09'
-LEAN_MODULES = ['Cellml.Props.C09', 'Cellml.Tie.GraphEqs', 'Cellml.Tie.GraphNum', 'Cellml.Tie.GraphBuild', 'Cellml.Tie.Graph', 'Cellml.Tie.GenDGraph', 'Cellml.Props.C09Gen']
+LEAN_MODULES = ['Cellml.Props.C09', 'Cellml.Tie.GraphEqs', 'Cellml.Tie.GraphNum', 'Cellml.Tie.GraphBuild', 'Cellml.Tie.Misc5', 'Cellml.Tie.Graph', 'Cellml.Tie.GenDGraph', 'Cellml.Props.C09Gen']
 N = {'quick': 800, 'thorough': 25000}
 RULE = ('random acyclic equation systems of 3-14 variables built through Model.add_variable / create_quantity / '
         'add_equation (shapes: chain, diamond, layered, wide, star, random DAG; ODEs whose derivatives are used on other '
